@@ -82,7 +82,7 @@ class EuropeanForwardStartOption(BaseDerivative):
         return ", ".join(params)
 
     def _start_index(self) -> int:
-        return floor(self.start / self.ul().dt)
+        return floor(round(self.start / self.ul().dt, 10))
 
     def payoff_fn(self) -> Tensor:
         return european_forward_start_payoff(
